@@ -214,8 +214,18 @@ func doExplore(t *testing.T, job *Job) {
 		if nf > 0 {
 			ck.RunsWithFault++
 		}
-		if res.Preempt >= 2 {
-			ck.Hashes = append(ck.Hashes, fmt.Sprintf("%x", res.SchedHash))
+		// non-trivial: the scheduler preempted a runnable goroutine at least
+		// twice, or (single-task cases, where it has nothing to preempt) at
+		// least three operations completed. Distinct = distinct hashes of
+		// (release sequence, case).
+		if res.Preempt >= 2 || (len(c.Tasks) == 1 && res.OpsDone >= 3) {
+			cb, _ := json.Marshal(c)
+			h := res.SchedHash
+			for _, b := range cb {
+				h ^= uint64(b)
+				h *= 1099511628211
+			}
+			ck.Hashes = append(ck.Hashes, fmt.Sprintf("%x", h))
 		} else {
 			ck.Trivial++
 		}
